@@ -21,7 +21,9 @@ STRS = ['abc', '', '1e5', '\u00e9', '\U0001f642', '1.2.3', 'yes', 'no', 'true', 
         'é', '\t', '\x07', ' ', '\U0001f642', 'on', 'off', 'y', 'n',
         '0o17', '017', '+1', '1:30', '.5', '5.', '-', '---', '...', '1E3',
         '.0E0', '+1e-5', '12', '1.5', 'NULL', 'FALSE', '\\', 'a\\nb', ',',
-        '\ud800']
+        '\ud800',
+        # longer than the emitter's line width, with places to fold
+        'word ' * 20 + 'end', 'caf\u00e9 ' * 18 + '1e5']
 INTS = [0, 1, -1, 7, 10 ** 20, -(2 ** 63), 17, 100]
 FLOATS = [1.5, 0.0, -0.0, 1.0, -2.25, 1e17, 1e-7, 1e300, 5e-324, 0.1,
           float('inf'), float('-inf'), float('nan')]
